@@ -30,18 +30,41 @@ Streams (all deterministic from ctx.rng):
            patchBad apply the entries before the offending one and raise)
   ambient  a fixed small sample of the oracle with the root logger at DEBUG, sys.stdout replaced by a writer that raises,
            `random` reseeded between steps, and once in a child `python -O` process
+  literals (round 4) STRING / NUMBER / TUPLE LITERALS AND IDENTIFIERS OF THE CURRENT SOURCE: on every run the source of the
+           storage modules and of every module of the package that uses the storage (the protocol handlers) is parsed with
+           `ast`; every string literal and identifier becomes the name of a dynamic attribute (truthy / falsy values of a dozen
+           types, through each of the four write paths, then lookups of the record by address with / without auto-create, by
+           id, by dmr_id, by host, re-patches, deletion, a later peer), every literal becomes a value of dynamic attributes and
+           data members, a host / a port / a whole peer address, a size (entries of one patch, length of a name / a value);
+           the library's own constant objects (ADDRESS_EMPTY ...) are handed over as the very objects; a few harvested names /
+           values / addresses are mixed into the pools of EVERY random stream.  Literals of functions that differ from the
+           committed baseline (ctx.drift) get the complete cross product (name x value x write path x record, literal values
+           included), exhaustive pools and - numbers - a history with that many records.
+  containers (round 4) ATTRIBUTE VALUES WITH IDENTITY: dict / list / set / bytearray / OrderedDict / defaultdict / Counter /
+           deque / UserDict / SimpleNamespace / nested values the caller owns: the SAME object is handed to three records
+           (inside the caller's own defaults mapping - the same patch object for every new peer - and through each write
+           path) and kept; then one record is patched again with another container of the same type (disjoint / overlapping /
+           empty / equal / superset / subset content), through every write path, for a dynamic attribute and for a data
+           member.  Snapshots are deep copies taken BEFORE each call; after each call every record and every object of the
+           caller is compared.  In the model a container is an opaque immutable value (Model/StorageOpaque.lean).
 """
+import ast
 import collections
+import copy
 import importlib
 import itertools
 import json
+import os
 import random
 import re
+import time as _time
 import types
 import unicodedata
 import uuid as _uuid
 
 from common import impl_error
+
+_NOW = _time.monotonic  # the real clock (one stream replaces the functions of the `time` module by a fast-running clock)
 
 PROP = "C20"
 MODULES = ["C20"]
@@ -99,9 +122,49 @@ def in_alphabet(v) -> bool:
         if len(v) == 2 and isinstance(v[0], str) and isinstance(v[1], str):
             return True  # (host, port as text)
         return len(v) >= 1 and isinstance(v[0], str) and all(_nat(x) for x in v[1:])
-    if type(v) is list:
-        return len(v) >= 1 and isinstance(v[0], str) and all(_nat(x) for x in v[1:])
+    if type(v) is list and len(v) >= 1 and isinstance(v[0], str) and all(_nat(x) for x in v[1:]):
+        return True
+    if type(v) in OPAQUE_KINDS:
+        return _otext(v, 0) is not None
     return False
+
+
+# containers as opaque immutable values of the model (Model/StorageOpaque.lean): kind tag + canonical text of the content.
+# Two of them have the same text iff Python's == holds (elements: None, bool / int >= 0, str, UUID, the address tuples,
+# containers again; dict items and set elements sorted); everything else is outside the model (oracle only).
+OPAQUE_KINDS = {dict: 1, list: 2, set: 3, bytearray: 4}
+
+
+def _otext(v, depth):
+    """canonical text of a container / of an element of one; None if it is outside the model"""
+    t = type(v)
+    if v is None or t in (bool, str, _uuid.UUID) or (t is int and v >= 0):
+        return _cval(v)
+    if t is tuple:
+        return _cval(v) if in_alphabet(v) else None
+    if depth > 3 or t not in OPAQUE_KINDS:
+        return None
+    if t is bytearray:
+        return "b" + bytes(v).hex()
+    if t is dict:
+        items = []
+        for k, x in v.items():
+            if not (type(k) in (bool, str) or (type(k) is int and k >= 0)):
+                return None
+            tx = _otext(x, depth + 1)
+            if tx is None:
+                return None
+            items.append(_cval(k) + ":" + tx)
+        return "{" + ",".join(sorted(items)) + "}"
+    if t is list and v and isinstance(v[0], str) and all(isinstance(x, int) and x >= 0 for x in v[1:]):
+        return _cval(v) if all(_nat(x) for x in v[1:]) else None  # the address-list shape ([host, True] == [host, 1]: left to the oracle)
+    try:
+        texts = [_otext(x, depth + 1) for x in v]
+    except RuntimeError:
+        return None
+    if any(x is None for x in texts):
+        return None
+    return "[" + ",".join(texts) + "]" if t is list else "<" + ",".join(sorted(texts)) + ">"
 
 
 _CVAL = {}
@@ -138,8 +201,12 @@ def _cval(v) -> str:
         if len(v) == 2:
             return "a" + cps(v[0]) + ":" + str(v[1])
         return "t" + cps(v[0]) + "".join(f":{x}" for x in v[1:])  # arity != 2: the AF_INET6 4-tuple, 1- / 3-tuples
-    if type(v) is list and in_alphabet(v):
+    if type(v) is list and len(v) >= 1 and isinstance(v[0], str) and all(_nat(x) for x in v[1:]):
         return "l" + cps(v[0]) + "".join(f":{x}" for x in v[1:])
+    if type(v) in OPAQUE_KINDS:
+        txt = _otext(v, 0)
+        if txt is not None:
+            return "o" + ".".join([str(OPAQUE_KINDS[type(v)])] + [str(ord(c)) for c in txt])
     return "?" + type(v).__name__  # outside the modelled alphabet: such histories never reach the model
 
 
@@ -262,8 +329,69 @@ def str_entries(p) -> dict:
     return {k: v for k, v in (patch_items(p) or []) if isinstance(k, str)}
 
 
+class Held(dict):
+    """a patch mapping the CALLER keeps and hands over again: the very same dict object in every call that names it (every
+    other patch argument is rebuilt for each call)"""
+
+    __hash__ = None
+
+
 def make_patch(p):
+    if type(p) is Held:
+        return p
     return dict(p) if isinstance(p, dict) else p.make()
+
+
+# ------------------------------------------------------------------------------------------------
+# values with identity: containers (dict / list / set / bytearray / deque ...) the caller owns, hands over as attribute
+# values - the same object to several records - and keeps.  A snapshot of a record must not share them with the record.
+
+_IMMUTABLE = {type(None), bool, int, float, complex, str, bytes, _uuid.UUID, Str, Int, range, type, types.FunctionType}
+
+
+def frz(v):
+    """the value as it is NOW: an immutable value as it is, anything else as a deep copy"""
+    t = type(v)
+    if t in _IMMUTABLE:
+        return v
+    if t is tuple or t is Addr2 or t is Addr4 or t is frozenset:
+        for x in v:
+            if type(x) not in _IMMUTABLE:
+                break
+        else:
+            return v
+    try:
+        return copy.deepcopy(v)
+    except Exception:  # noqa: an object that cannot be copied is compared as it is
+        return v
+
+
+def same_deep(a, b) -> bool:
+    """equal and of the same type, for containers (a dict that became a defaultdict is another value)"""
+    try:
+        return type(a) is type(b) and bool(a == b)
+    except Exception:  # noqa
+        return False
+
+
+class Pool:
+    """the caller's own objects of one history, by index; `specs` is their JSON form at the time they were made (what a
+    replay file records: the content the CALLER gave them, whatever the library did to them afterwards)"""
+
+    def __init__(self, specs):
+        self.specs = list(specs)
+        self.objs = []
+        for sp in self.specs:
+            self.objs.append(uj(sp, self.objs))
+        self.frozen = [copy.deepcopy(o) for o in self.objs]
+        self.ids = {id(o): i for i, o in enumerate(self.objs)}
+
+    def ref(self, x):
+        i = self.ids.get(id(x))
+        return i if i is not None and self.objs[i] is x else None
+
+
+_POOL = [None]  # the pool of the history that is running (jv prints its objects as references)
 
 
 def cpatch(p) -> str:
@@ -280,8 +408,14 @@ def cpatch(p) -> str:
         if not isinstance(k, str):
             out.append("!T")
             break
-        out.append(f"{ckey(k)}={cval(v)}")
+        out.append(f"{ckey(k)}={caddr(v) if k == 'address_in' else cval(v)}")
     return ",".join(out) or "-"
+
+
+def caddr(a) -> str:
+    """canonical text of a value in the place of a peer address: match_ip_incoming subscripts it, and the model knows what
+    `[0]` of its own shapes is, not of a container (opaque to it): those histories run against the oracle alone"""
+    return "?addr" if type(a) in OPAQUE_KINDS and not cval(a).startswith("l") else cval(a)
 
 
 # ------------------------------------------------------------------------------------------------
@@ -314,6 +448,7 @@ class Sut:
     """one RepeaterStorage + the list of objects it created, by creation index"""
 
     hook = None  # called before every operation (ambient stream: reseeds `random`)
+    identity = False  # hand the arguments over as the very objects of the history (library sentinels such as ADDRESS_EMPTY)
 
     def __init__(self):
         import okdmr.dmrlib.storage.repeater as rmod
@@ -348,12 +483,12 @@ class Sut:
     def snapshot(self):
         """fields and dynamic attributes of every created object (copies)"""
         return [
-            ({f: getattr(o, f) for f in FIELDS}, dict(o._Repeater__attrs)) for o in self.created
+            ({f: frz(getattr(o, f)) for f in FIELDS}, {k: frz(v) for k, v in o._Repeater__attrs.items()}) for o in self.created
         ]
 
     def snapshot_one(self, i):
         o = self.created[i]
-        return ({f: getattr(o, f) for f in FIELDS}, dict(o._Repeater__attrs))
+        return ({f: frz(getattr(o, f)) for f in FIELDS}, {k: frz(v) for k, v in o._Repeater__attrs.items()})
 
     def dict_items(self):
         return list(self.storage._RepeaterStorage__repeaters.items())
@@ -389,10 +524,11 @@ class Sut:
         pre = "pre-ok" if not (pre_flag and violates_pre(self, op)) else "pre-violated"
         if Sut.hook is not None:
             Sut.hook()
+        fresh = (lambda x: x) if Sut.identity else globals()["fresh"]
         try:
             if kind == "mi":
                 _, a, auto, p = op
-                line = f"mi {cval(a)} {int(auto)} {cpatch(p)}"
+                line = f"mi {caddr(a)} {int(auto)} {cpatch(p)}"
                 r = st.match_incoming(fresh(a), auto, make_patch(p))
             elif kind == "save":
                 _, ref, p = op
@@ -557,9 +693,12 @@ class Oracle:
 
     FULL_READBACK = 400  # objects x watched keys read back after every operation up to this product
 
-    def __init__(self, ctx, sut, history, watch_keys=(), tag=None):
+    def __init__(self, ctx, sut, history, watch_keys=(), tag=None, pool=None):
         self.ctx, self.sut, self.history = ctx, sut, history
         self.tag = tag
+        self.pool = pool  # the caller's own objects (containers handed over as values, patch mappings passed repeatedly)
+        self.pool_reported = set()
+        self.hist_json = [] if pool is not None else None  # the operations as they were GIVEN (their values may be changed later)
         self.last_for_addr = []  # [address, object, id] returned by match_incoming since the last address_in assignment (addresses may be unhashable: compared with ==)
         self.n = 0
         # what attr(key) has to answer, per created object, from the operations alone (public API only);
@@ -574,8 +713,18 @@ class Oracle:
     def fail(self, kind, what, expected=None, actual=None):
         self.ctx.count(f"oracle-failure:{kind}")
         self.nfail += 1
-        if len(self.ctx.failures) < 200:  # keep the first (shortest) ones, count the rest
-            inp = {"history": [op_json(o) for o in self.history[: self.n + 1]], "stream": "ok"}
+        stream = (self.tag or "plain").split(":")[0]
+        per_stream = getattr(self.ctx, "hist", {}).get(f"oracle-failures-recorded:{stream}", 0)
+        # keep the first (shortest) ones, count the rest; at most 30 per stream, so that a change that breaks every history of
+        # one stream does not keep the later streams (other classes of inputs, other consequences) from reporting theirs
+        if len(self.ctx.failures) < 200 and per_stream < 30:
+            self.ctx.count(f"oracle-failures-recorded:{stream}")
+            if self.hist_json is not None:
+                inp = {"history": self.hist_json[: self.n + 1], "stream": "ok", "objects": self.pool.specs}
+            else:
+                inp = {"history": [op_json(o) for o in self.history[: self.n + 1]], "stream": "ok"}
+            if Sut.identity:
+                inp["identity"] = True
             if self.given_watch:
                 inp["watch"] = self.given_watch[:64]
             if self.tag:
@@ -592,6 +741,12 @@ class Oracle:
         if op[0] == "mi":
             # independent of match_attr: is there a stored record with this incoming address?
             self.seen = [o for o in self.all0 if o.address_in == op[1]]
+        # the values as they are GIVEN (a call may change a container it is handed: the expectation must not follow)
+        p = patch_of(op)
+        self.p0 = {k: frz(v) for k, v in p.items()} if p else p
+        self.v0 = frz(op[3]) if op[0] == "attr" else None
+        if self.hist_json is not None:
+            self.hist_json.append(op_json(op))
 
     def _watch(self, k):
         if k not in self.watch_set:
@@ -678,18 +833,20 @@ class Oracle:
         elif op[0] in ("save", "patch", "attr", "del"):
             if op[1] is not None:
                 target = sut.created[op[1]]
+        elif op[0] in ("mu", "ma", "mip"):
+            self.check_lookup(op, raw, raised)
         # ---- a patch changes exactly the named members/attributes of the matched record, nothing else
         snap1 = sut.snapshot()
         exp = [(dict(f), dict(a)) for f, a in self.snap0]
         partial = False
         if target is not None and sut.index(target) < len(exp):
             ti = sut.index(target)
-            p = patch_of(op)
+            p = self.p0
             if not raised:
                 if p:
                     exp[ti] = expected_after_patch(*exp[ti], p)
                 elif op[0] == "attr" and op[3] is not None and hashable(op[2]):
-                    exp[ti][1][op[2]] = op[3]
+                    exp[ti][1][op[2]] = self.v0
                 elif op[0] == "del" and hashable(op[2]):
                     exp[ti][1].pop(op[2], None)
             elif malformed and p and ti < len(snap1) and between(exp[ti], expected_after_patch(*exp[ti], p), snap1[ti]):
@@ -709,6 +866,8 @@ class Oracle:
                                     self.suspects.append((nk, k))
             e_txt, a_txt = describe_difference(exp, snap1, diff)
             self.fail("patch-not-local", f"{op[0]}{' (raised ' + type(raw).__name__ + ')' if raised else ''}: records {diff[:8]} differ from 'exactly the named fields of the matched record changed'", expected=e_txt, actual=a_txt)
+        if self.pool is not None:
+            self.check_pool(op)
         # ---- the same through the public API: attr(key) of every record for every key in play
         while len(self.exp_attrs) < len(sut.created):
             self.exp_attrs.append({})
@@ -722,7 +881,7 @@ class Oracle:
             e = self.exp_attrs[ti]
             # what attr / delete_attr answer
             if op[0] == "attr":
-                want = op[3] if op[3] is not None else e.get(op[2])
+                want = self.v0 if op[3] is not None else e.get(op[2])
                 if raised or not same(raw, want):
                     self.fail("attribute-readback", f"attr({op[2]!r}{'' if op[3] is None else ', value'}) answered with something else than the value stored under this key", expected=repr(want), actual=impl_error(raw) if raised else repr(raw))
             elif op[0] == "del":
@@ -732,7 +891,7 @@ class Oracle:
                 elif not (raw is False or (raised and type(raw).__name__ == "KeyError")):
                     self.fail("attribute-readback", f"delete_attr({op[2]!r}) of a key that was never stored found something", expected="KeyError / False", actual=impl_error(raw) if raised else repr(raw))
             if not raised:
-                for k, v in patch_of(op).items():
+                for k, v in self.p0.items():
                     if k not in FIELDS:
                         self._watch(k)
                         if v is not None:
@@ -740,18 +899,18 @@ class Oracle:
                 if op[0] == "attr":
                     self._watch(op[2])
                     if op[3] is not None:
-                        e[op[2]] = op[3]
+                        e[op[2]] = self.v0
                 elif op[0] == "del":
                     self._watch(op[2])
                     e.pop(op[2], None)
             elif partial:
                 # entries applied before the patch raised (validated by `between` above)
-                for k, v in patch_of(op).items():
+                for k, v in self.p0.items():
                     if k not in FIELDS:
                         self._watch(k)
                         got = target.attr(k)
                         if got is not None:
-                            e[k] = got
+                            e[k] = frz(got)
         if len(sut.created) * len(self.watch) <= self.FULL_READBACK or self.n % 64 == 63:
             self.readback(op)
         else:
@@ -769,6 +928,43 @@ class Oracle:
             else:
                 prev[1], prev[2] = target, target.id
         self.n += 1
+
+    def check_lookup(self, op, raw, raised):
+        """match_uuid / match_attr / match_ip_incoming: a stored record is found by its id, by the value of a data member,
+        by the host of its incoming address - the FIRST stored record (storage order) whose member equals the value, whatever
+        its dynamic attributes are; nothing stored matches: None (match_uuid: SystemError)"""
+        sut = self.sut
+        try:
+            if op[0] == "mu":
+                hits = [o for o in self.all0 if o.id == op[1]]
+            elif op[0] == "ma":
+                if not (isinstance(op[1], str) and op[1] in FIELDS):
+                    return
+                hits = [o for o in self.all0 if getattr(o, op[1]) == op[2]]
+            else:
+                hits = [o for o in self.all0 if o.address_in[0] == op[1]]
+        except Exception:  # noqa: a stored address that cannot be subscripted, values that cannot be compared
+            return
+        what = {"mu": "match_uuid", "ma": "match_attr", "mip": "match_ip_incoming"}[op[0]]
+        if hits:
+            if raised or raw is not hits[0]:
+                self.fail("wrong-record", f"{what}: record {sut.index(hits[0])} is stored and matches, it is not what the lookup answers", expected=f"obj{sut.index(hits[0])}", actual=impl_error(raw) if raised else sut.res(raw))
+        elif op[0] == "mu":
+            if not (raised and type(raw).__name__ == "SystemError"):
+                self.fail("wrong-record", "match_uuid of an id no stored record has answered with something", expected="ERR SystemError", actual=impl_error(raw) if raised else sut.res(raw))
+        elif raised or raw is not None:
+            self.fail("wrong-record", f"{what}: no stored record matches, the lookup answered with something", expected="None", actual=impl_error(raw) if raised else sut.res(raw))
+
+    def check_pool(self, op):
+        """the caller's own objects (containers it handed over as values and keeps, patch mappings it passes again) are what
+        the caller made them: no call changes them"""
+        pool = self.pool
+        for i, (o, f) in enumerate(zip(pool.objs, pool.frozen)):
+            if i in self.pool_reported or same_deep(o, f):
+                continue
+            self.pool_reported.add(i)
+            holders = [j for j, r in enumerate(self.sut.created) if any(v is o for v in r._Repeater__attrs.values()) or any(getattr(r, fld) is o for fld in FIELDS)]
+            self.fail("caller-object-changed", f"{op[0]}: the call changed object {i} of the caller in place (a value the caller handed over earlier and keeps; records {holders} hold this very object as a value)", expected=repr(f)[:300], actual=repr(o)[:300])
 
     def finish(self, probe=()):
         """end of the history: every watched key and the given never-written siblings of every record, and every
@@ -880,14 +1076,17 @@ def modelled(line: str) -> bool:
     return "?" not in line
 
 
-def run_sequence(ctx, ops, pairs, stream, dump_every=0, watch=(), probe=(), tag=None, oracle_ctx=None):
+def run_sequence(ctx, ops, pairs, stream, dump_every=0, watch=(), probe=(), tag=None, oracle_ctx=None, pool=None):
     """runs one history on a fresh storage; returns False if it was inapplicable / left the preconditions.
-    `pairs` None: oracle only.  Returns the oracle (truthy) for stream 'ok'."""
+    `pairs` None: oracle only.  Returns the oracle (truthy) for stream 'ok'.  `pool`: the caller's own objects the
+    operations refer to (checked after every operation, printed as references in a failing input)."""
     enough(ctx)
     sut = Sut()
+    saved_pool = _POOL[0]
+    _POOL[0] = pool
     try:
         history = []
-        oracle = Oracle(oracle_ctx or ctx, sut, history, watch, tag) if stream == "ok" else None
+        oracle = Oracle(oracle_ctx or ctx, sut, history, watch, tag, pool) if stream == "ok" else None
         local = [("reset", "ok")]
         in_model = True
         for n, op in enumerate(ops):
@@ -925,6 +1124,7 @@ def run_sequence(ctx, ops, pairs, stream, dump_every=0, watch=(), probe=(), tag=
             ctx.count("histories-outside-the-model(oracle-only)")
         return oracle or True
     finally:
+        _POOL[0] = saved_pool
         sut.close()
 
 
@@ -936,6 +1136,10 @@ def jv(x):
     """JSON form of a value / address / patch argument of an operation (replay files)"""
     if _plain(x):
         return x
+    if _POOL[0] is not None:
+        i = _POOL[0].ref(x)
+        if i is not None:
+            return {"ref": i}
     if isinstance(x, _uuid.UUID):
         return {"uuid": x.int}
     if type(x) is float:
@@ -954,6 +1158,24 @@ def jv(x):
         return {"list": [jv(y) for y in x]}
     if type(x) is dict:
         return {"patch": [[jv(k), jv(v)] for k, v in x.items()]}
+    if type(x) is Held:
+        return {"held": [[jv(k), jv(v)] for k, v in x.items()]}
+    if type(x) is bytearray:
+        return {"bytearray": bytes(x).hex()}
+    if type(x) is collections.deque:
+        return {"deque": [jv(y) for y in x]}
+    if type(x) is collections.OrderedDict:
+        return {"odict": [[jv(k), jv(v)] for k, v in x.items()]}
+    if type(x) is collections.defaultdict:
+        return {"ddict": [[jv(k), jv(v)] for k, v in x.items()]}
+    if type(x) is collections.Counter:
+        return {"counter": [[jv(k), jv(v)] for k, v in x.items()]}
+    if type(x) is frozenset:
+        return {"frozenset": sorted((jv(y) for y in x), key=repr)}
+    if type(x) is collections.UserDict:
+        return {"userdict": [[jv(k), jv(v)] for k, v in x.items()]}
+    if type(x) is types.SimpleNamespace:
+        return {"namespace": [[k, jv(v)] for k, v in vars(x).items()]}
     if isinstance(x, Px):
         return {"px": x.kind, "items": [[jv(k), jv(v)] for k, v in x.items]}
     if isinstance(x, (set, frozenset)):
@@ -961,11 +1183,43 @@ def jv(x):
     return {"repr": repr(x)}
 
 
-def uj(x):
+def uj(x, pool=None):
+    """the value of a JSON form; {"ref": i} is the i-th object of `pool` (the caller's own objects of the history)"""
+    if pool is not None:
+        return _uj(x, pool)
+    return _uj(x, _POOL[0].objs if _POOL[0] is not None else None)
+
+
+def _uj(x, pool):
+    def uj(y):
+        return _uj(y, pool)
+
     if isinstance(x, list):
         return [uj(y) for y in x]
     if not isinstance(x, dict):
         return x
+    if "ref" in x:
+        return pool[x["ref"]]
+    if "held" in x:
+        return Held((_key(uj(k)), uj(v)) for k, v in x["held"])
+    if "bytearray" in x:
+        return bytearray(bytes.fromhex(x["bytearray"]))
+    if "deque" in x:
+        return collections.deque(uj(y) for y in x["deque"])
+    if "odict" in x:
+        return collections.OrderedDict((_key(uj(k)), uj(v)) for k, v in x["odict"])
+    if "ddict" in x:
+        d = collections.defaultdict(int)
+        d.update((_key(uj(k)), uj(v)) for k, v in x["ddict"])
+        return d
+    if "counter" in x:
+        return collections.Counter({_key(uj(k)): uj(v) for k, v in x["counter"]})
+    if "frozenset" in x:
+        return frozenset(_key(uj(y)) for y in x["frozenset"])
+    if "userdict" in x:
+        return collections.UserDict({_key(uj(k)): uj(v) for k, v in x["userdict"]})
+    if "namespace" in x:
+        return types.SimpleNamespace(**{k: uj(v) for k, v in x["namespace"]})
     if "uuid" in x:
         return _uuid.UUID(int=x["uuid"])
     if "float" in x:
@@ -1002,8 +1256,8 @@ def op_json(op):
     return [jv(x) for x in op]
 
 
-def op_unjson(o):
-    return tuple(uj(x) for x in o)
+def op_unjson(o, pool=None):
+    return tuple(uj(x, pool) for x in o)
 
 
 # ------------------------------------------------------------------------------------------------
@@ -1418,6 +1672,8 @@ def random_op(rng, sut, stream, pool=DEFAULT_POOL):
     fields = FIELDS[1:] if stream == "ok" else FIELDS
 
     def patch():
+        if pool.get("held") is not None and rng.random() < 0.2:
+            return pool["held"]  # the caller's own mapping, the same object in every call that uses it
         n = rng.choice([0, 0, 1, 1, 2, 3])
         p = {}
         for _ in range(n):
@@ -1688,13 +1944,17 @@ def shape_pool(rng):
     return {"addrs": pick, "vals": DEFAULT_POOL["vals"], "dyn": DEFAULT_POOL["dyn"]}
 
 
-def run_random(ctx, length, pairs, stream, pool=DEFAULT_POOL, tag="random", watch=()):
-    """`pairs` None: oracle only (values outside the model's alphabet)"""
+def run_random(ctx, length, pairs, stream, pool=DEFAULT_POOL, tag="random", watch=(), objects=None, dump_every=25):
+    """`pairs` None: oracle only (values outside the model's alphabet).  Every pool is extended by a few names / values /
+    addresses harvested from the current source (`mix`).  `objects`: the caller's own objects among the values (a Pool)."""
     enough(ctx)
+    pool = mix(ctx.rng, pool)
     sut = Sut()
+    saved_pool = _POOL[0]
+    _POOL[0] = objects
     try:
         history = []
-        oracle = Oracle(ctx, sut, history, watch, tag if tag != "random" else None) if stream == "ok" else None
+        oracle = Oracle(ctx, sut, history, watch, tag if tag != "random" else None, objects) if stream == "ok" else None
         local = [("reset", "ok")]
         in_model = True
         n = 0
@@ -1718,7 +1978,7 @@ def run_random(ctx, length, pairs, stream, pool=DEFAULT_POOL, tag="random", watc
                 if len(set(keys)) != len(keys):
                     ctx.fail("duplicate-key", {"history": [op_json(o) for o in history], "stream": stream}, "dictionary holds one key twice")
             n += 1
-            if n % 25 == 0:
+            if n % dump_every == 0:
                 local.append(("dump", sut.dump()))
         if oracle and watch:
             oracle.finish()
@@ -1729,6 +1989,7 @@ def run_random(ctx, length, pairs, stream, pool=DEFAULT_POOL, tag="random", watc
             ctx.count("histories-outside-the-model(oracle-only)")
         ctx.case((tag, stream, tuple(map(str, history))), sample={"stream": stream, "class": tag, "length": length, "first_ops": [op_json(o) for o in history[:4]], "len": len(sut.storage)} if length > 20 and len(ctx.samples) < 12 else None)
     finally:
+        _POOL[0] = saved_pool
         sut.close()
 
 
@@ -2118,6 +2379,634 @@ def run_child_optimized(ctx):
     ctx.case(("python -O", out["histories"]))
 
 
+# ------------------------------------------------------------------------------------------------
+# containers: attribute values with identity.  The caller owns a dict (per-timeslot settings, site-wide defaults), a list,
+# a set, a bytearray ...; hands the SAME object to several records (through every write path, or inside one defaults
+# mapping it passes for every new peer) and keeps it; then patches the key again on ONE record with another container of the
+# same type.  The property's reading: that record holds exactly the new value, every other record and every object of the
+# caller is what it was (the oracle compares deep snapshots taken BEFORE each call with the state after it).
+
+_MAP_VARIANTS = {
+    "base": [("ts1", 9), ("ts2", 91)],
+    "disjoint": [("ts3", 23), ("ts4", 5)],
+    "overlap": [("ts2", 17), ("ts3", 23)],
+    "empty": [],
+    "equal": [("ts1", 9), ("ts2", 91)],
+    "superset": [("ts1", 10), ("ts2", 92), ("ts3", 23)],
+    "subset": [("ts1", 10)],
+}
+_SEQ_VARIANTS = {"base": [9, 91], "disjoint": [23, 5], "overlap": [91, 23], "empty": [], "equal": [9, 91], "superset": [9, 91, 23], "subset": [9]}
+
+CONTAINER_KINDS = {
+    # name: variant -> JSON form of a new container (see jv / uj)
+    "dict": lambda n: {"patch": [[k, v] for k, v in _MAP_VARIANTS[n]]},
+    "list": lambda n: {"list": list(_SEQ_VARIANTS[n])},
+    "set": lambda n: {"set": sorted(_SEQ_VARIANTS[n])},
+    "bytearray": lambda n: {"bytearray": bytes(_SEQ_VARIANTS[n]).hex()},
+    "ordereddict": lambda n: {"odict": [[k, v] for k, v in _MAP_VARIANTS[n]]},
+    "defaultdict": lambda n: {"ddict": [[k, v] for k, v in _MAP_VARIANTS[n]]},
+    "counter": lambda n: {"counter": [[k, v] for k, v in _MAP_VARIANTS[n]]},
+    "deque": lambda n: {"deque": list(_SEQ_VARIANTS[n])},
+    "dict-of-lists": lambda n: {"patch": [[k, {"list": [v, v + 1]}] for k, v in _MAP_VARIANTS[n]]},
+    "list-of-dicts": lambda n: {"list": [{"patch": [["slot", v]]} for v in _SEQ_VARIANTS[n]]},
+    "int-keyed-dict": lambda n: {"patch": [[v, k] for k, v in _MAP_VARIANTS[n]]},
+    "userdict": lambda n: {"userdict": [[k, v] for k, v in _MAP_VARIANTS[n]]},  # a Mapping that is no dict
+    "namespace": lambda n: {"namespace": [[k, v] for k, v in _MAP_VARIANTS[n]]},  # a settings object (vars() is its content)
+    "tuple-of-list": lambda n: {"tuple": ["slots", {"list": list(_SEQ_VARIANTS[n])}]},  # immutable outside, mutable inside
+}
+CONTAINER_VARIANTS = ["disjoint", "overlap", "empty", "equal", "superset", "subset"]
+WRITE_PATHS = ("mi", "save", "patch", "attr")
+
+
+def container_history(key, w1, w2, held):
+    """JSON operations over the caller's objects 0 (the shared container D), 1 and 2 (other containers of the same type),
+    3 (the caller's defaults mapping {key: D}, handed over as the patch itself for every new peer if `held`)"""
+    D, E, E2 = {"ref": 0}, {"ref": 1}, {"ref": 2}
+    defaults = {"ref": 3} if held else {"patch": [[key, D]]}
+    addr = [jv(a) for a in (A0, A1, A2, A3)]
+    dynamic = key not in FIELDS
+
+    def write(w, t, v):
+        w = WRITE_PATHS[w % 4]
+        if w == "attr" and not dynamic:
+            w = "patch"
+        if w == "mi":
+            return ["mi", addr[t], False, {"patch": [[key, v]]}]
+        if w == "attr":
+            return ["attr", t, key, v]
+        return [w, t, {"patch": [[key, v]]}]
+
+    h = [
+        ["mi", addr[0], True, defaults],  # every new peer gets the site-wide defaults
+        ["mi", addr[1], True, defaults],
+        ["mi", addr[2], True, {"patch": []}],
+        write(w1, 2, D),  # ... the third one through another write path
+        write(w2, 0, E),  # one peer is re-configured: another container of the same type
+        ["mi", addr[1], False, {"patch": []}],
+        write(w2 + 1, 1, E2),
+        ["mi", addr[3], True, defaults],  # a later peer: the defaults are still what the caller made them
+        write(w1, 0, D),  # D again over E
+        write(w2, 2, D),  # the same object over itself
+        write(w2, 0, E),
+        write(w2 + 2, 0, E2),  # E2 over E on a record that was re-configured before
+    ]
+    if dynamic:
+        h += [["del", 1, key], write(w2, 1, E), ["mi", addr[0], False, {"patch": [[key, None]]}]]
+    h += [["mi", addr[2], False, {"patch": []}], ["mu", jv(_uuid.UUID(int=1))]]
+    return h
+
+
+def capped(ctx, stream):
+    """the stream has given as many failing inputs as are kept per stream: its remaining histories are skipped"""
+    return ctx.hist.get(f"oracle-failures-recorded:{stream}", 0) >= 30
+
+
+def soft(ctx, ok):
+    """a systematic history of the round-4 streams could not be run to its end (on the unchanged tree: never; with a change that
+    keeps records from being created the oracle has recorded that already): counted, not an infrastructure error"""
+    if not ok:
+        ctx.count("round4:history-inapplicable")
+
+
+def run_containers(ctx, pairs):
+    rng = ctx.rng
+    kinds = list(CONTAINER_KINDS)
+    n = 0
+    plan = []
+    # names: a dynamic attribute, a data member; for dicts also names harvested from the current source (all names of changed
+    # functions, two of the storage modules' own per run)
+    hkeys = _H[0].keys() if _H[0] is not None else []
+    extra = [k for k, r in hkeys if r == HOT][:8]
+    near = [k for k, r in hkeys if r == NEAR]
+    extra += [near[(ctx.seed * 2 + j) % len(near)] for j in range(2 if near else 0)]
+    for ki, kind in enumerate(kinds):
+        for key in ("talkgroups", "callsign") + (tuple(dict.fromkeys(extra)) if kind == "dict" else ()):
+            for vi, var in enumerate(CONTAINER_VARIANTS):
+                combos = [(w1, w2) for w1 in range(4) for w2 in range(4)]
+                if not (ctx.thorough() or (kind == "dict" and (key == "talkgroups" or ctx.boost > 1))):
+                    r = (ki * 7 + vi * 3 + ctx.seed + (key == "callsign")) % 16
+                    combos = [combos[(r + 5 * j) % 16] for j in range(2 if ctx.boost == 1 else 4)]
+                for w1, w2 in combos:
+                    plan.append((kind, key, var, CONTAINER_VARIANTS[(vi + 1 + (w1 + w2) % 4) % len(CONTAINER_VARIANTS)], w1, w2))
+    for i, (kind, key, var, var2, w1, w2) in enumerate(plan):
+        if capped(ctx, "containers"):
+            break
+        mk = CONTAINER_KINDS[kind]
+        specs = [mk("base"), mk(var), mk(var2), {"held": [[key, {"ref": 0}], ["rx_freq", 430000000 + i]]}]
+        pool = Pool(specs)
+        hist = container_history(key, w1, w2, held=bool((i + ctx.seed) % 2))
+        ops = [op_unjson(o, pool.objs) for o in hist]
+        ok = run_sequence(ctx, ops, pairs, "ok", dump_every=1, watch=[key] if key not in FIELDS else (), tag=f"containers:{kind}", pool=pool)
+        soft(ctx, ok)
+        n += 1
+        ctx.count(f"containers:kind:{kind}")
+        ctx.case(("containers", kind, key, var, var2, w1, w2), sample={"class": "containers", "kind": kind, "key": key, "objects": specs, "history": hist[:6]} if i == 0 else None)
+        if pairs is not None and len(pairs) > 200000:
+            flush(ctx, "storage.containers", pairs)
+    ctx.count("containers:systematic-histories", n)
+    # random histories whose values are the caller's own containers (one or two kinds), scalars and None
+    m = min(ctx.budget(60, 1500), 240 if not ctx.thorough() else 4000)
+    for i in range(m):
+        if capped(ctx, "containers"):
+            break
+        ks = rng.sample(kinds, rng.choice([1, 1, 2]))
+        specs = [CONTAINER_KINDS[k](v) for k in ks for v in ["base"] + rng.sample(CONTAINER_VARIANTS, 3)]
+        specs.append({"held": [["k", {"ref": 0}], ["m", {"ref": 1}]]})
+        pool = Pool(specs)
+        vals = pool.objs[:-1]
+        p = {"addrs": DEFAULT_POOL["addrs"][:3], "vals": vals + vals + [None, 0, "x"], "dyn": ["k", "m"], "nomix": True, "held": pool.objs[-1]}
+        run_random(ctx, rng.choice([6, 12, 30]), pairs, "ok", p, tag="containers:random", watch=["k", "m"], objects=pool, dump_every=1)
+        if pairs is not None and len(pairs) > 200000:
+            flush(ctx, "storage.containers", pairs)
+    ctx.count("containers:random-histories", m)
+
+
+# ------------------------------------------------------------------------------------------------
+# literals of the CURRENT source.  The check rebuilds everything from /repo's tree; so may the generators: every string,
+# number and tuple literal and every attribute / keyword name of the storage modules and of the modules that use the storage
+# (the protocol handlers) is read with `ast` on this run and used as a name of a dynamic attribute (with truthy / falsy values
+# of several types), as a value, as host / port of a peer address, as a size.  A name or value the code treats specially
+# ("disabled", "reset", a magic port) is thereby part of every run; on the unchanged tree these are names and values like
+# any other (the model treats keys and values uniformly).  Literals of functions that differ from the committed baseline
+# (ctx.drift) are "hot": they get the complete cross product and an exhaustive pool.
+
+LIT_TRUTHY = [True, 1, "x", "1", "false", ("", 0), 2**70, 1.5, [0], {"a": 1}, b"x", -1]
+LIT_FALSY = [False, 0, "", 0.0, [], {}, b"", ()]
+HOT, NEAR, FAR = 0, 1, 2
+
+
+class Harvest:
+    def __init__(self, ctx):
+        self.strings, self.numbers, self.tuples, self.names, self.bytes = {}, {}, {}, {}, {}
+        self.files = []
+        self.taken = set()
+        try:
+            self._read(ctx)
+        except Exception as e:  # noqa: infrastructure - the streams run without the literals
+            ctx.count("literals:harvest-unavailable")
+            ctx.notes.append(f"literal harvest failed: {type(e).__name__}: {e}")
+        for what, d in (("strings", self.strings), ("numbers", self.numbers), ("tuples", self.tuples), ("names", self.names)):
+            for rank, label in ((HOT, "changed-functions"), (NEAR, "storage-modules"), (FAR, "handler-modules")):
+                n = sum(1 for r in d.values() if r == rank)
+                if n:
+                    ctx.count(f"literals:harvested:{what}:{label}", n)
+
+    def _add(self, d, v, rank):
+        try:
+            if d.get(v, 9) > rank:
+                d[v] = rank
+        except TypeError:
+            pass
+
+    def _read(self, ctx):
+        import okdmr.dmrlib.storage.repeater as rmod
+
+        self.taken = set(dir(rmod.Repeater())) - set(FIELDS)
+        near_dir = os.path.dirname(os.path.abspath(rmod.__file__))
+        pkg_dir = os.path.dirname(near_dir)
+        repo = os.path.dirname(os.path.dirname(pkg_dir))
+        drift = {d.replace(" (removed)", "") for d in (getattr(ctx, "drift", None) or [])}
+        for d, ds, fs in os.walk(pkg_dir):
+            ds[:] = sorted(x for x in ds if x not in ("tests", "__pycache__"))
+            for f in sorted(fs):
+                if not f.endswith(".py"):
+                    continue
+                path = os.path.join(d, f)
+                near = os.path.abspath(d) == near_dir
+                try:
+                    src = open(path, encoding="utf-8").read()
+                except OSError:
+                    continue
+                if not (near or "storage" in src or ".attr(" in src):
+                    continue
+                rel = os.path.relpath(path, repo)
+                whole = f"{rel}::<new file>" in drift or f"{rel}::<unparsable>" in drift
+                try:
+                    tree = ast.parse(src)
+                except SyntaxError:
+                    continue
+                self.files.append(rel)
+                self._walk(tree, "", rel, drift, NEAR if near else FAR, whole)
+        # constants the storage modules IMPORT from elsewhere (their literal is in another file): the live module / class values
+        for name in ("okdmr.dmrlib.storage", "okdmr.dmrlib.storage.repeater", "okdmr.dmrlib.storage.repeater_storage"):
+            try:
+                mod = importlib.import_module(name)
+            except Exception:  # noqa
+                continue
+            spaces = [vars(mod)] + [vars(c) for c in vars(mod).values() if isinstance(c, type) and getattr(c, "__module__", "") == name]
+            for ns in spaces:
+                for n, v in list(ns.items()):
+                    if n.startswith("__"):
+                        continue
+                    if type(v) is str and len(v) <= 300:
+                        self._add(self.strings, v, NEAR)
+                    elif type(v) in (int, float):
+                        self._add(self.numbers, v, NEAR)
+                    elif type(v) is bytes:
+                        self._add(self.bytes, v, NEAR)
+                    elif type(v) in (tuple, frozenset, list, set) and len(v) <= 64:
+                        if type(v) is tuple:
+                            self._add(self.tuples, v, NEAR)
+                        for x in v:
+                            if type(x) is str and len(x) <= 300:
+                                self._add(self.strings, x, NEAR)
+                            elif type(x) in (int, float):
+                                self._add(self.numbers, x, NEAR)
+
+    def _walk(self, node, prefix, rel, drift, base, whole):
+        for ch in getattr(node, "body", []):
+            if isinstance(ch, ast.Expr) and isinstance(ch.value, ast.Constant) and isinstance(ch.value.value, str):
+                continue  # a docstring / a bare string statement is no literal of the code
+            if isinstance(ch, (ast.FunctionDef, ast.AsyncFunctionDef)):
+                q = prefix + ch.name
+            elif isinstance(ch, ast.ClassDef):
+                self._walk(ch, prefix + ch.name + ".", rel, drift, base, whole)
+                continue
+            else:
+                q = prefix + "<body>"
+            self._collect(ch, HOT if whole or f"{rel}::{q}" in drift else base)
+
+    def _collect(self, top, rank):
+        for n in ast.walk(top):
+            body = getattr(n, "body", None)
+            if isinstance(body, list) and body and isinstance(body[0], ast.Expr) and isinstance(getattr(body[0], "value", None), ast.Constant) and isinstance(body[0].value.value, str):
+                body[0].value.value = None  # a docstring is no literal of the code
+            if isinstance(n, ast.Constant):
+                v = n.value
+                if isinstance(v, str):
+                    if len(v) <= 300:
+                        self._add(self.strings, v, rank)
+                        if rank != FAR:
+                            for w in re.findall(r"[A-Za-z_][A-Za-z0-9_]*", v)[:8]:
+                                self._add(self.names, w, rank)
+                elif isinstance(v, bytes):
+                    self._add(self.bytes, v, rank)
+                elif isinstance(v, (int, float)) and not isinstance(v, bool):
+                    self._add(self.numbers, v, rank)
+            elif isinstance(n, ast.UnaryOp) and isinstance(n.op, ast.USub) and isinstance(n.operand, ast.Constant) and type(n.operand.value) in (int, float):
+                self._add(self.numbers, -n.operand.value, rank)
+            elif isinstance(n, ast.Attribute):
+                self._add(self.names, n.attr, rank)
+            elif isinstance(n, ast.keyword) and n.arg:
+                self._add(self.names, n.arg, rank)
+            elif isinstance(n, (ast.Name, ast.arg)) and rank == HOT:
+                self._add(self.names, n.id if isinstance(n, ast.Name) else n.arg, NEAR)  # variable names of changed functions
+            elif isinstance(n, ast.Tuple):
+                try:
+                    v = ast.literal_eval(n)
+                    hash(v)
+                except Exception:  # noqa
+                    continue
+                self._add(self.tuples, v, rank)
+
+    # ---- what the streams take
+    def keys(self):
+        """[(name of a dynamic attribute, rank)]: string literals and identifier names that are no member of Repeater (A1)"""
+        out = {}
+        for d in (self.strings, self.names):
+            for k, r in d.items():
+                if len(k) <= 80 and k not in self.taken and k not in FIELDS and out.get(k, 9) > r:
+                    out[k] = r
+        return sorted(out.items(), key=lambda kr: (kr[1], kr[0]))
+
+    def values(self):
+        out = {}
+        for d in (self.strings, self.numbers, self.tuples, self.bytes):
+            for v, r in d.items():
+                k = (type(v).__name__, v)
+                if out.get(k, (None, 9))[1] > r:
+                    out[k] = (v, r)
+        return sorted(out.values(), key=lambda vr: (vr[1], repr(vr[0])))
+
+    def addresses(self):
+        out = []
+        for v, r in self.values():
+            if type(v) is str and len(v) <= 80:
+                out.append(((v, 50000), r))
+            elif type(v) is int and v >= 0:
+                out.append((("10.0.0.1", v), r))
+            elif type(v) is tuple:
+                out.append((v, r))
+        return out
+
+    def pick(self, rng, what, n):
+        cache = self.__dict__.setdefault("_pick", {})
+        if what not in cache:
+            if what == "keys":
+                items = self.keys()
+            elif what == "vals":
+                items = [(v, r) for v, r in self.values() if in_alphabet(v)]
+            else:
+                items = [(a, r) for a, r in self.addresses() if in_alphabet(a)]
+            cache[what] = ([x for x, r in items if r == HOT], [x for x, r in items if r != HOT])
+        hot, rest = cache[what]
+        out = []
+        if hot:
+            out.append(rng.choice(hot))
+        while len(out) < n and rest:
+            out.append(rng.choice(rest))
+        return out
+
+
+_H = [None]  # the harvest of this run
+
+
+def mix(rng, pool):
+    """the pool of a random history + a few harvested names / values / addresses"""
+    h = _H[0]
+    if h is None or pool.get("nomix"):
+        return pool
+    return dict(pool, dyn=list(pool["dyn"]) + h.pick(rng, "keys", 2), vals=list(pool["vals"]) + h.pick(rng, "vals", 2), addrs=list(pool["addrs"]) + h.pick(rng, "addrs", 1))
+
+
+def literal_key_history(K, v, w, t, v2):
+    """three peers; record `t` gets the dynamic attribute K = v through write path w; then it is looked up by address (with /
+    without auto-create), by id, by dmr_id, by host, patched through the storage (K = v2: re-enabled / disabled), K is deleted,
+    and a fourth peer arrives with K in its first patch"""
+    addr = [A0, A1, A2]
+    write = [("mi", addr[t], False, {K: v}), ("save", t, {K: v}), ("patch", t, {K: v}), ("attr", t, K, v)][w % 4]
+    return [
+        ("mi", A0, True, {"dmr_id": 1001}),
+        ("mi", A1, True, {"dmr_id": 1002, "callsign": "OK1B"}),
+        ("mi", A2, True, {"dmr_id": 1003}),
+        write,
+        ("mi", addr[t], False, {}),
+        ("mi", addr[t], True, {}),
+        ("mu", _uuid.UUID(int=t)),
+        ("ma", "dmr_id", 1001 + t),
+        ("mip", addr[t][0]),
+        ("ma", "address_in", addr[t]),
+        ("mi", addr[(t + 1) % 3], False, {}),
+        ("mi", addr[t], True, {K: v2}),
+        ("save", t, {"callsign": "X"}),
+        ("mi", addr[t], False, {"m": 1}),
+        ("del", t, K),
+        ("mi", addr[t], True, {}),
+        ("mu", _uuid.UUID(int=t)),
+        ("mi", A3, True, {K: v, "dmr_id": 1004}),
+        ("mi", A3, False, {}),
+        ("mi", A3, True, {K: v2}),
+        ("mu", _uuid.UUID(int=3)),
+    ]
+
+
+def literal_value_history(L):
+    """the literal as the value of dynamic attributes and of data members, then lookups by these members"""
+    return [
+        ("mi", A0, True, {"k": L, "callsign": L}),
+        ("mi", A1, True, {"dmr_id": L}),
+        ("attr", 0, "m", L),
+        ("mi", A0, False, {}),
+        ("ma", "dmr_id", L),
+        ("ma", "callsign", L),
+        ("mi", A1, False, {"serial": L, "k": L}),
+        ("patch", 0, {"address_out": L, "nat_enabled": L, "snmp_enabled": L}),
+        ("mu", _uuid.UUID(int=1)),
+        ("mi", A0, True, {"k": "other"}),
+        ("mi", A1, True, {}),
+        ("attr", 0, "m", None),
+        ("del", 0, "m"),
+        ("mi", A2, True, {"address_nat": L}),
+        ("ma", "address_nat", L),
+    ]
+
+
+def literal_address_history(a):
+    """the literal as (part of) a peer address"""
+    return [
+        ("mi", a, True, {"k": 1}),
+        ("mi", A0, True, {}),
+        ("mi", a, False, {}),
+        ("mi", a, True, {"m": 2}),
+        ("ma", "address_in", a),
+        ("mip", host_of(a)),
+        ("mi", A0, False, {}),
+        ("patch", 1 if a != A0 else 0, {"address_out": a, "address_nat": a}),
+        ("mi", a, False, {"dmr_id": 5}),
+        ("mu", _uuid.UUID(int=0)),
+        ("mi", A1, True, {"address_out": a}),
+        ("mi", a, True, {}),
+    ]
+
+
+def literal_size_history(n):
+    """the number as a size: patches of n - 1 / n / n + 1 entries, names and values of n / n + 1 characters"""
+    return [
+        ("mi", A0, True, {}),
+        ("mi", A1, True, {f"e{j}": j for j in range(n)}),
+        ("patch", 0, {f"e{j}": j for j in range(n + 1)}),
+        ("save", 1, {f"f{j}": j for j in range(max(n - 1, 0))}),
+        ("attr", 0, "k" * n, 1),
+        ("attr", 0, "k" * (n + 1), 2),
+        ("attr", 1, "v", "x" * n),
+        ("patch", 1, {"callsign": "c" * n, "serial": "s" * (n + 1), "dmr_id": n}),
+        ("mi", A0, False, {}),
+        ("mi", A1, False, {"m": n}),
+        ("ma", "dmr_id", n),
+    ]
+
+
+def hot_alphabet(K):
+    """exhaustive pool around one name of a changed function"""
+    return [
+        ("mi", A0, True, {}),
+        ("mi", A1, True, {K: True}),
+        ("mi", A0, False, {K: 1}),
+        ("attr", 0, K, "x"),
+        ("mi", A0, True, {K: 0}),
+        ("del", 0, K),
+        ("mu", _uuid.UUID(int=0)),
+        ("save", 1, {K: False, "callsign": "C"}),
+    ]
+
+
+def key_variants_lite(K):
+    return [k for k in dict.fromkeys([K + "x", "x" + K, K + "_1", K + ".0", K.upper(), K.capitalize(), K + " ", K[:-1], "_" + K]) if k and k != K]
+
+
+def run_literals(ctx, h, pairs):
+    rng = ctx.rng
+    values = LIT_TRUTHY + LIT_FALSY
+    nkey = 0
+    labels = ("changed-function", "storage-module", "handler-module")
+    # literal VALUES for the literal keys: `attr("state") == "disabled"` needs the pair
+    lit_hot = [v for v, r in h.values() if r == HOT and type(v) in (str, int, float)]
+    lit_near = [v for v, r in h.values() if r == NEAR and type(v) in (str, int, float)]
+
+    def truthy(v):
+        try:
+            return bool(v)
+        except Exception:  # noqa
+            return True
+
+    def one_key(K, combos, tag):
+        """combos: (value, write path, record)"""
+        nonlocal nkey
+        for n, (v, w, t) in enumerate(combos):
+            if capped(ctx, "literals"):
+                return
+            v = copy.deepcopy(v)
+            opposite = LIT_FALSY if truthy(v) else LIT_TRUTHY
+            v2 = copy.deepcopy(opposite[(n + w) % len(opposite)])
+            ok = run_sequence(ctx, literal_key_history(K, v, w % 4, t % 2, v2), pairs, "ok", watch=[K], tag=tag)
+            soft(ctx, ok)
+            nkey += 1
+            ctx.case((tag, K, repr(v), w % 4, t % 2), sample={"class": tag, "key": K, "value": jv(v), "write path": WRITE_PATHS[w % 4], "record": t % 2} if nkey == 1 else None)
+        if pairs is not None and len(pairs) > 200000:
+            flush(ctx, "storage.literals", pairs)
+
+    keys = [(k, r) for k, r in h.keys()]
+    done = set()
+    for ki, (K, rank) in enumerate(keys):
+        if capped(ctx, "literals"):
+            break
+        done.add(K)
+        r = rng.randrange(1000)
+        if rank == HOT and h.strings.get(K) == HOT:
+            # a string literal of a changed function: the complete cross product
+            combos = [(v, w, t) for v in values + lit_hot + lit_near for w in range(4) for t in range(2)]
+        elif rank == HOT:
+            combos = [(v, w, vi + w) for vi, v in enumerate(values + lit_hot) for w in range(4)]
+        elif rank == NEAR or ctx.thorough():
+            # True and every second value of the dictionary (the other half with the next seed), each through one write path
+            combos = [(v, vi + ctx.seed + ki, vi // 2 + ki) for vi, v in enumerate(values) if vi == 0 or ctx.thorough() or (vi + ctx.seed + ki) % 2 == 0]
+            combos += [(v, r + j, r // 4 + j) for j, v in enumerate(lit_hot)]
+            combos += [(lit_near[(r + j * 7) % len(lit_near)], r + j, j) for j in range(2 if lit_near else 0)]
+        else:
+            combos = [(True, r, r // 4), (values[1 + r % (len(values) - 1)], r // 3, r // 7)] + [(v, r + j, j) for j, v in enumerate(lit_hot[:4])]
+        one_key(K, combos, f"literals:key:{labels[rank]}")
+        ctx.count(f"literals:keys:{labels[rank]}s")
+        if rank != FAR:
+            vs = [kv for kv in key_variants_lite(K) if kv not in done and kv not in h.taken and kv not in FIELDS]
+            if rank == NEAR and not ctx.thorough():
+                vs = [kv for j, kv in enumerate(vs) if (j + ctx.seed + ki) % 3 == 0]
+            for kv in vs:
+                done.add(kv)
+                r = rng.randrange(1000)
+                one_key(kv, [(True, r, r // 4)] if rank == NEAR else [(v, vi + r, vi) for vi, v in enumerate([True, 1, "x", False, 0, ""])], "literals:key:variant")
+                ctx.count("literals:keys:variants")
+    ctx.count("literals:key-histories", nkey)
+    flush(ctx, "storage.literals.keys", pairs)
+    # ---- exhaustive pools around the names of changed functions
+    hot = [k for k, r in keys if r == HOT]
+    if capped(ctx, "literals"):
+        ctx.notes.append("literals: the stream gave 30 failing inputs, its remaining histories were skipped")
+        return
+    if hot:
+        # string literals first (they are what a lookup / comparison in the changed code names), then identifiers
+        hot.sort(key=lambda k: (k not in h.strings, k))
+        for K in hot[:3]:
+            alpha = hot_alphabet(K)
+            for L in range(1, 5):
+                for seq in itertools.product(range(len(alpha)), repeat=L):
+                    if capped(ctx, "literals"):
+                        break
+                    if run_sequence(ctx, [alpha[i] for i in seq], pairs, "ok", tag="literals:exhaustive"):
+                        ctx.case(("literals:exhaustive", K, seq))
+                    if pairs is not None and len(pairs) > 200000:
+                        flush(ctx, "storage.literals.exhaustive", pairs)
+            ctx.count("literals:exhaustive-pools")
+        flush(ctx, "storage.literals.exhaustive", pairs)
+    # ---- as values
+    nval = 0
+    for L, rank in h.values():
+        if capped(ctx, "literals"):
+            break
+        ok = run_sequence(ctx, literal_value_history(L), pairs, "ok", watch=["k", "m"], tag="literals:value")
+        soft(ctx, ok)
+        nval += 1
+        ctx.case(("literals:value", repr(L)), sample={"class": "literals:value", "value": jv(L)} if nval == 1 else None)
+    ctx.count("literals:value-histories", nval)
+    # ---- as host / port / whole peer address
+    nad = 0
+    for a, rank in h.addresses():
+        if capped(ctx, "literals"):
+            break
+        ok = run_sequence(ctx, literal_address_history(a), pairs, "ok", tag="literals:address")
+        soft(ctx, ok)
+        nad += 1
+        ctx.case(("literals:address", repr(a)), sample={"class": "literals:address", "address": jv(a)} if nad == 1 else None)
+    ctx.count("literals:address-histories", nad)
+    flush(ctx, "storage.literals.values", pairs)
+    # ---- numbers as sizes (entries of one patch, length of a name / a value)
+    nsz = 0
+    for n, rank in sorted(h.numbers.items(), key=lambda nr: (nr[1], repr(nr[0]))):
+        if type(n) is not int or n < 0 or n > (2048 if rank != FAR else 64):
+            continue
+        ok = run_sequence(ctx, literal_size_history(n), pairs, "ok", watch=["k" * n, "v"], tag="literals:size")
+        soft(ctx, ok)
+        nsz += 1
+        ctx.case(("literals:size", n))
+    ctx.count("literals:size-histories", nsz)
+    flush(ctx, "storage.literals.sizes", pairs)
+    # ---- numbers of changed functions as a number of records
+    for n in sorted(n for n, r in h.numbers.items() if r == HOT and type(n) is int and 2 <= n <= 12000)[:4]:
+        for shape in ("ports", "identified"):
+            if run_scale(ctx, shape, n + 40, ctx.seed, pairs, False):
+                break
+        ctx.count("literals:record-count-histories")
+    # ---- the library's own objects (sentinels such as ADDRESS_EMPTY), handed over as the very objects
+    run_sentinels(ctx, pairs)
+    flush(ctx, "storage.literals.sentinels", pairs)
+
+
+def sentinels():
+    """[(name, object)]: upper-case module / class constants of the storage modules and of the handler classes"""
+    out = []
+    mods = []
+    for name in ("okdmr.dmrlib.storage", "okdmr.dmrlib.storage.repeater", "okdmr.dmrlib.storage.repeater_storage"):
+        try:
+            mods.append(importlib.import_module(name))
+        except Exception:  # noqa
+            pass
+    for mod, cls in (("okdmr.dmrlib.protocols.hytera.p2p_datagram_protocol", "P2PDatagramProtocol"), ("okdmr.dmrlib.protocols.hytera.rdac_datagram_protocol", "RDACDatagramProtocol")):
+        try:
+            mods.append(getattr(importlib.import_module(mod), cls))
+        except Exception:  # noqa
+            pass
+    for m in mods:
+        for n, v in sorted(vars(m).items()):
+            if n.isupper() and type(v) in (str, int, tuple, bytes, frozenset) and not any(v is o for _, o in out):
+                out.append((f"{getattr(m, '__name__', m)}.{n}", v))
+    return out
+
+
+def run_sentinels(ctx, pairs):
+    saved = Sut.identity
+    Sut.identity = True
+    n = 0
+    try:
+        for name, s in sentinels():
+            hs = [literal_value_history(s)]
+            if type(s) is tuple:
+                hs.append(literal_address_history(s))
+            elif type(s) is str:
+                hs.append(literal_key_history(s, True, n % 4, (n // 4) % 2, False) if s not in FIELDS else literal_address_history((s, 50000)))
+            for hh in hs:
+                ok = run_sequence(ctx, hh, pairs, "ok", tag="literals:sentinel")
+                soft(ctx, ok)
+                n += 1
+                ctx.case(("literals:sentinel", name, len(hh)), sample={"class": "literals:sentinel", "object": name} if n == 1 else None)
+    finally:
+        Sut.identity = saved
+    ctx.count("literals:sentinel-histories", n)
+
+
+def intern_sentinels(op):
+    """replay of an identity history: values equal to a library sentinel are that very object again"""
+    sent = [s for _, s in sentinels()]
+
+    def f(x):
+        for s in sent:
+            if type(x) is type(s) and x == s:
+                return s
+        if type(x) is dict:
+            return {f(k): f(v) for k, v in x.items()}
+        return x
+
+    return tuple(f(x) for x in op)
+
+
 # historically interesting inputs first (none of them fails on the unchanged tree)
 CORPUS = [
     # two peers sharing an IP: distinct records, the IP lookup returns the first
@@ -2141,10 +3030,38 @@ class Enough(Exception):
 
 
 def enough(ctx):
-    """the search stops once this many failing inputs are recorded (the first, shortest ones are reported): a change that
-    breaks nearly every history would otherwise be searched at full (boosted) budget for nothing"""
-    if len(getattr(ctx, "failures", ())) >= ENOUGH:
+    """the search stops once this many failing inputs are recorded (the first, shortest ones are reported; at most 30 are kept per
+    stream, two full streams are enough): a change that breaks nearly every history would otherwise be searched at full
+    (boosted) budget for nothing; and it stops a while after
+    the first failing input (45 s quick / 5 min thorough: enough for the streams with shorter histories to add theirs)"""
+    n = len(getattr(ctx, "failures", ()))
+    if n >= ENOUGH:
         raise Enough()
+    if n >= 60 and sum(1 for k, v in ctx.hist.items() if k.startswith("oracle-failures-recorded:") and v >= 30) >= 2:
+        raise Enough()  # two streams (two classes of inputs) have each given as many failing inputs as are kept per stream
+    if n and hasattr(ctx, "boost"):
+        t = getattr(ctx, "_first_failure_at", None)
+        if t is None:
+            ctx._first_failure_at = _NOW()
+        elif _NOW() - t > (300 if ctx.thorough() else 45):
+            raise Enough()
+
+
+def diversify(failures):
+    """the failing inputs in round-robin order over (stream, kind of failure), each group in the order found (shortest first):
+    the first few - the ones written out as replay files - show the different consequences of a change"""
+    groups = {}
+    for f in failures:
+        inp = f.get("input") if isinstance(f.get("input"), dict) else {}
+        key = (str(inp.get("class") or inp.get("stream") or "").split(":")[0], f.get("kind"))
+        groups.setdefault(key, []).append(f)
+    out = []
+    queues = list(groups.values())
+    while queues:
+        for q in queues:
+            out.append(q.pop(0))
+        queues = [q for q in queues if q]
+    return out
 
 
 def flush(ctx, component, pairs):
@@ -2163,6 +3080,10 @@ def run(ctx):
         ctx.notes.append(f"search stopped after {len(ctx.failures)} failing inputs")
     finally:
         logging.disable(logging.NOTSET)
+        _H[0] = None
+        _POOL[0] = None
+        Sut.identity = False
+        ctx.failures[:] = diversify(ctx.failures)
 
 
 def _run(ctx):
@@ -2192,7 +3113,18 @@ def _run(ctx):
         "followed by lookups of every earlier record by address / id / dmr_id and reads of its attributes; after a raising call "
         "the matched record may carry some of the named entries (exactly as given), nothing else may differ; random histories "
         "with 10-50 % raising calls. AMBIENT: a fixed sample with the root logger at DEBUG, a sys.stdout that raises, `random` "
-        "reseeded before every call, and once in a child `python -O`. Stream 'ok' respects the two preconditions of the theorems (no patch assigns id; "
+        "reseeded before every call, and once in a child `python -O`. LITERALS OF THE CURRENT SOURCE (round 4): every string / "
+        "number / tuple literal and identifier of the storage modules and of the modules using the storage, read with ast on "
+        "this run, as name of a dynamic attribute (truthy / falsy values of a dozen types x four write paths, then lookups by "
+        "address / id / dmr_id / host, re-patch, delete, a later peer), as value of attributes and data members, as host / port / "
+        "peer address, as size; library constants (ADDRESS_EMPTY) as the very objects; harvested names / values / addresses in "
+        "the pools of every random stream; literals of functions that differ from the committed baseline: full cross product, "
+        "exhaustive pools, that many records. CONTAINERS (round 4): dict / list / set / bytearray / OrderedDict / defaultdict / "
+        "Counter / deque / UserDict / namespace / nested values owned by the caller, the same object in three records (via the "
+        "caller's own defaults mapping and every write path), then one record re-patched with another container of the type "
+        "(disjoint / overlapping / empty / equal / superset / subset), dynamic attribute and data member; deep snapshots before "
+        "each call, every record and every object of the caller compared after it; lookups by id / member / host are checked "
+        "against the first stored record that matches. Stream 'ok' respects the two preconditions of the theorems (no patch assigns id; "
         "address_in is only assigned a value no other record holds) and is checked against the property as stated (incl. "
         "attr() read back through the public API after every operation), stream 'cross' crosses them and is checked for "
         "model = code and unique dictionary keys. A history is distinct by its operation list; non-trivial = at least one "
@@ -2205,13 +3137,19 @@ def _run(ctx):
         "uuid.uuid4 replaced by a counter: freshness of real UUIDs is assumed, not proved",
         "Python dict semantics (insertion order, update in place) as modelled by dictSet/dictGet/dictDel",
         "attribute names reach the model through an injective ASCII encoding (ckey): the model compares names as strings",
+        "containers (dict / list / set / bytearray) reach the model as opaque immutable values: kind + canonical text of the content "
+        "(_otext; equal texts iff Python == on the modelled element types); the model has value semantics, an in-place change of a "
+        "stored container shows as a difference of the per-operation state dumps",
     ]
     ctx.assumptions += [
         "A1: patch keys and match_attr names are data member names of Repeater or names that are no attribute of it at all "
         "(a key such as 'attr', 'patch', 'logger' or '__class__' would overwrite a method/member by setattr)",
-        "A2: values are None, ints/bools, strings, (str,int) tuples, UUIDs, and the address shapes (str,int,...) / [str,int,...] / (str,str) "
-        "(== is structural on them; bool is int); histories with other values, non-str attr()/delete_attr keys, unsized or empty "
-        "non-mapping patches run against the oracle alone",
+        "A2: values are None, ints/bools, strings, (str,int) tuples, UUIDs, the address shapes (str,int,...) / [str,int,...] / (str,str), "
+        "and dict / list / set / bytearray containers of these (opaque to the model; not in the place of a peer address) "
+        "(== is structural on them; bool is int); histories with other values (negative ints, floats, bytes, other container types, "
+        "objects), non-str attr()/delete_attr keys, unsized or empty non-mapping patches run against the oracle alone",
+        "A4: the caller does not change a container after handing it over (the storage keeps the reference: such a change is the "
+        "caller's own write, outside the property)",
         "A3: save/attr/delete_attr/patch are applied to objects obtained from the storage (as the protocol handlers do) or, for save, None",
         "P1/P2 (theorem hypotheses, stream 'ok'): no patch assigns id; address_in is only assigned a value no other stored record holds",
     ]
@@ -2221,12 +3159,10 @@ def _run(ctx):
         """boosted budgets (x4 source drift, x8 broken proof) are capped so that a boosted quick run stays within minutes"""
         return min(ctx.budget(q, t), cap if quick else cap * 20)
 
-    import time
-
-    t_last = [time.time()]
+    t_last = [_NOW()]
 
     def mark(stream):
-        now = time.time()
+        now = _NOW()
         ctx.hist[f"seconds:{stream}"] = round(ctx.hist.get(f"seconds:{stream}", 0) + now - t_last[0], 1)
         t_last[0] = now
 
@@ -2237,6 +3173,16 @@ def _run(ctx):
         ctx.case(("corpus", str(seq)))
         assert ok, "corpus sequence left the preconditions"
     flush(ctx, "storage.corpus", pairs)
+    mark("corpus")
+    # ---- literals of the current source as names / values / addresses / sizes (names of changed functions first)
+    _H[0] = harvest = Harvest(ctx)
+    run_literals(ctx, harvest, pairs)
+    flush(ctx, "storage.literals", pairs)
+    mark("literals")
+    # ---- containers as attribute values: the same object in several records and in the caller's hands
+    run_containers(ctx, pairs)
+    flush(ctx, "storage.containers", pairs)
+    mark("containers")
     # ---- attribute names: collision candidates (short histories first: they give the shortest failing inputs)
     keys = Keys(ctx)
     rng = ctx.rng
@@ -2334,10 +3280,9 @@ def _run(ctx):
         if failure:
             break  # one long failing input is enough
     # ---- exhaustive short histories
-    maxlen = 6 if ctx.thorough() else 5
-    if ctx.boost > 1:
-        maxlen = 6
-    for name, alpha in alphabets(ctx).items():
+    # (boosted quick runs: one step longer for two of the four pools, chosen by the seed - all four cost ~3 min)
+    for pi, (name, alpha) in enumerate(alphabets(ctx).items()):
+        maxlen = 6 if ctx.thorough() or (ctx.boost > 1 and (pi - ctx.seed) % 4 < 2) else 5
         done = skipped = 0
         for L in range(1, maxlen + 1):
             for seq in itertools.product(range(len(alpha)), repeat=L):
@@ -2430,16 +3375,23 @@ def _replay(obj):
         print("property check:", failure)
         print("expected:", f.get("expected"), "actual:", f.get("actual"))
         return 1 if failure else 0
-    hist = [op_unjson(o) for o in inp.get("history", [])]
+    pool = Pool(inp["objects"]) if inp.get("objects") is not None else None
+    if pool is not None:
+        print("objects of the caller (as the caller made them):", json.dumps(inp["objects"]))
+    hist = [op_unjson(o, pool.objs if pool else None) for o in inp.get("history", [])]
     if not hist:
         print("no history recorded (proof/correspondence record):", json.dumps(obj.get("no_longer_checks") or obj.get("correspondence_differences"))[:2000])
         return 1
+    if inp.get("identity"):
+        hist = [intern_sentinels(op) for op in hist]
     c = Sink()
     sut = Sut()
     lines = []
     in_model = True
+    Sut.identity = bool(inp.get("identity"))
+    _POOL[0] = pool
     try:
-        oracle = Oracle(c, sut, list(hist), inp.get("watch", ())) if inp.get("stream") == "ok" else None
+        oracle = Oracle(c, sut, list(hist), inp.get("watch", ()), None, pool) if inp.get("stream") == "ok" else None
         for op in hist:
             if oracle:
                 oracle.before(op)
@@ -2456,6 +3408,8 @@ def _replay(obj):
             print("implementation  " + sut.dump())
     finally:
         sut.close()
+        Sut.identity = False
+        _POOL[0] = None
     if in_model:
         try:
             out = drive_model(lines)
